@@ -6,9 +6,14 @@ package sim
 import (
 	"encoding/json"
 	"fmt"
+	"net/http"
+	"os"
+	"path/filepath"
 	"strings"
 	"testing"
 	"time"
+
+	"github.com/wrgl/wrgl/pkg/ref"
 )
 
 type C13Plan struct {
@@ -21,7 +26,7 @@ type C13Plan struct {
 	SchedSeed uint64    `json:"sched_seed"`
 }
 
-var c13Ops = []string{"commit-existing", "commit-new", "merge-ff", "merge-noff", "merge-real", "prune"}
+var c13Ops = []string{"commit-existing", "commit-new", "merge-ff", "merge-noff", "merge-real", "prune", "fetch", "pull"}
 
 func genDisjointEdits(r *Rand, cols, pk []string, nrows int) (e1, e2 []Edit) {
 	pkIdx, _ := pkIndices(cols, pk)
@@ -120,10 +125,13 @@ func execC13(t *testing.T, raw json.RawMessage, res *Result) {
 		return true
 	}
 	pkArg := strings.Join(pk, ",")
-	if !must("commit", "main", f0, "base", "-p", pkArg) {
-		return
+	if p.Op != "fetch" && p.Op != "pull" {
+		if !must("commit", "main", f0, "base", "-p", pkArg) {
+			return
+		}
 	}
 	var opArgs []string
+	var beforeOp func()
 	nw := fmt.Sprint(p.Workers)
 	switch p.Op {
 	case "commit-existing":
@@ -143,6 +151,53 @@ func execC13(t *testing.T, raw json.RawMessage, res *Result) {
 			return
 		}
 		opArgs = []string{"merge", "main", "alt", "-n", nw}
+	case "fetch", "pull":
+		// a remote R served by the reference server over simnet; L has synced once, R moved on
+		R, err := NewNode(t, "R", w)
+		if err != nil {
+			res.Invalid("node R: %v", err)
+			return
+		}
+		defer R.Close()
+		rmust := func(args ...string) bool {
+			R.Clock += time.Hour
+			r := R.Run(t, args...)
+			if r.Failed() {
+				res.Invalid("pre-state on R `wrgl %s` failed: %v %s", strings.Join(args, " "), r.Err, r.Stdout)
+				return false
+			}
+			return true
+		}
+		rf0 := R.WriteFile("base.csv", CSVText(cols, rows, ','))
+		rf1 := R.WriteFile("v1.csv", CSVText(cols, rows1, ','))
+		rf2 := R.WriteFile("v2.csv", CSVText(cols, rows2, ','))
+		net := NewSimNet()
+		srv := NewRefServer(R.Objs, nil, ServerKnobs{TableBatch: int(p.SchedSeed % 3), MaxPackfileSize: []uint64{0, 1, 300}[p.SchedSeed%3]})
+		srv.OpenRS = func() (ref.Store, func(), error) {
+			db, err := OpenRefDB(filepath.Join(R.WrglDir, "sqlite.db"))
+			if err != nil {
+				return nil, nil, err
+			}
+			return db, func() { db.Close() }, nil
+		}
+		net.AddServer("r.example.com", srv)
+		prevTransport := http.DefaultTransport
+		http.DefaultTransport = net
+		defer func() { http.DefaultTransport = prevTransport }()
+		os.Setenv("XDG_CONFIG_HOME", filepath.Join(n.Root, "xdg"))
+		if !rmust("commit", "main", rf0, "r base", "-p", pkArg) || !must("remote", "add", "origin", "http://r.example.com") ||
+			!must("pull", "main", "origin", "refs/heads/main:refs/remotes/origin/main") {
+			return
+		}
+		if !rmust("commit", "main", rf1, "r second", "-p", pkArg) || !rmust("commit", "dev", rf2, "r dev", "-p", pkArg) {
+			return
+		}
+		if p.Op == "fetch" {
+			opArgs = []string{"fetch", "origin"}
+		} else {
+			opArgs = []string{"pull", "main", "origin", "refs/heads/main:refs/remotes/origin/main", "-n", "1"}
+		}
+		beforeOp = func() { srv.Restart() }
 	case "prune":
 		// a chain (and a fork) of doomed commits: prune must delete children before parents
 		chain := 2 + int(p.SchedSeed%5)
@@ -171,6 +226,9 @@ func execC13(t *testing.T, raw json.RawMessage, res *Result) {
 	pre := n.Capture()
 	runOp := func() CLIResult {
 		n.Clock += time.Hour
+		if beforeOp != nil {
+			beforeOp()
+		}
 		// merges are not run under the parking scheduler: merge.Merger busy-polls
 		// (DESIGN 2.3), parked differs would livelock the bubble
 		if p.Workers >= 4 && strings.HasPrefix(p.Op, "commit") {
